@@ -45,7 +45,7 @@ def go_str(s):
             out += '\\' + ch
         elif 0x20 <= o < 0x7F:
             out += ch
-        elif o < 0x100:
+        elif o < 0x80:
             out += '\\x%02x' % o
         elif o < 0x10000:
             out += '\\u%04x' % o
